@@ -52,22 +52,21 @@ Theorem annotate_eq self l h p rv mids :
 Proof.
   intros Hp Hv Hms Hrv Hmids. unfold AssemblyManager_annotate_assembly.
   assert (Hget : forall x, heap_get (heap_set h l x) l = Some x) by (intros; apply heap_get_set_same; congruence).
-  unfold hbind at 1. unfold h_set_id. rewrite (upd_rec h l p _ Hp).
-  unfold hbind at 1. unfold h_set_name. rewrite (upd_rec _ l _ _ (Hget _)), heap_set_set.
-  unfold hbind at 1. erewrite ann_set; [|apply Hget|reflexivity]. rewrite heap_set_set.
-  unfold hbind at 1. erewrite ann_set; [|apply Hget|reflexivity]. rewrite heap_set_set.
-  unfold hbind at 1. erewrite ann_set; [|apply Hget|reflexivity]. rewrite heap_set_set.
-  unfold hbind at 1. erewrite ann_set; [|apply Hget|reflexivity]. rewrite heap_set_set.
-  unfold hbind at 1. erewrite ann_set; [|apply Hget|reflexivity]. rewrite heap_set_set.
-  unfold hbind at 1. erewrite ann_set; [|apply Hget|reflexivity]. rewrite heap_set_set.
+  destruct p as [k s i fs [t rf o] tr n].
+  Local Ltac norm := cbn [rec_set_annotations rec_set_features pr_kind pr_seq pr_id pr_features pr_annotations
+                          pr_letter_annotations pr_name an_topology an_references an_other].
+  Local Ltac setann Hget := unfold hbind at 1; erewrite ann_set; [|apply Hget|reflexivity]; rewrite heap_set_set; norm.
+  unfold hbind at 1. unfold h_set_id. rewrite (upd_rec h l _ _ Hp). norm.
+  unfold hbind at 1. unfold h_set_name. rewrite (upd_rec _ l _ _ (Hget _)), heap_set_set. norm.
+  setann Hget. setann Hget. setann Hget. setann Hget. setann Hget. setann Hget.
   unfold hbind at 1. rewrite (get_id_other h l _ _ rv Hv Hrv).
   unfold hbind at 1. rewrite (mapM_ids _ (am_modules self) mids).
-  2:{ clear -Hmids Hms. induction Hmids as [|m i ms is_ Hmi HF IH]; constructor.
+  2:{ clear -Hmids Hms. induction Hmids as [|m i0 ms is_ Hmi HF IH]; constructor.
       - destruct Hmi as (r & Hr & Hi). inversion Hms; subst. exists r. split; [|reflexivity].
         rewrite heap_get_set_other by congruence. exact Hr.
       - inversion Hms; subst. now apply IH. }
-  unfold hbind at 1. erewrite ann_set; [|apply Hget|reflexivity]. rewrite heap_set_set.
-  unfold hret. destruct p as [k s i fs [t rf o] tr n]. reflexivity.
+  setann Hget.
+  reflexivity.
 Qed.
 
 (* ---------- the dereferencing of all the inputs (the `seen` loop) ------------------------------ *)
